@@ -3,7 +3,7 @@ import os
 import numpy as np
 from hypothesis import strategies as st
 
-from .. import conv, files, gen, sgy, spec
+from .. import conv, files, gen, sgy, sources, spec
 from ..core import Violation
 
 META = {
@@ -11,13 +11,14 @@ META = {
     "rule": ("case = (start, step, count) for inlines and crosslines independently (any sign, |values| < 2^31, "
              "count >= 2), sample interval in whole microseconds (uniform over 1..65535 and a set of values whose "
              "millisecond form is inexact), whole-millisecond start time in -32768..32767, 2..1500 samples; routes: "
-             "SEG-Y with either reader, NumPy with int/float/list axes, optionally followed by crop / re-block / "
+             "SEG-Y with either reader, NumPy with int/float/list axes, generated ZGY (pyzgy writer), optionally followed by crop / re-block / "
              "export; plus a reader-side sweep opening spec-written files for (interval, start, count) triples; "
              "oracle: ilines/xlines equal exactly (values and dtype intc), len(zslices) == n, |zslices[i]-src[i]| <= "
              "1e-9 + 1e-12|src[i]|, tracecount, structured; emulator axes identical; non-trivial = negative start or "
              "|step| != 1 or interval not a multiple of 250 us; distinct = per-axis (sign, step class, count class) + interval class"),
     "assumptions": [
         "SEG-Y route: segyio's ilines/xlines/samples of the generated file are the source axes; intervals above 32767 us are exercised through the NumPy route and the reader sweep only (2-byte signed field for segyio)",
+        "ZGY route: the source axes are the ones pyzgy reports for the generated file (ZGY stores annotation and sample interval as float32, so the interval is the float32 value nearest to the requested microseconds); line numbers within +-1e6",
         "sample-axis tolerance 1e-9 absolute + 1e-12 relative stands for 'float rounding of start + i*interval'",
     ],
 }
@@ -39,6 +40,13 @@ def big_axis(draw, count):
     return [start, step]
 
 
+@st.composite
+def small_axis(draw, count):
+    step = draw(st.one_of(st.sampled_from([1, -1, 2, -3, 5, 100]), st.integers(-1000, 1000).filter(lambda v: v != 0)))
+    start = draw(st.one_of(st.integers(-50, 5000), st.integers(-10 ** 6, 10 ** 6), st.sampled_from([0, -1])))
+    return [start, step]
+
+
 def axis_class(a, n):
     start, step = a
     return ["neg" if start < 0 else "zero" if start == 0 else "pos", "desc" if step < 0 else "asc",
@@ -47,7 +55,7 @@ def axis_class(a, n):
 
 @st.composite
 def cases(draw):
-    route = draw(st.sampled_from(["segy", "segy-reduced", "numpy"]))
+    route = draw(st.sampled_from(["segy", "segy-reduced", "numpy", "numpy", "zgy"]))
     n_il, n_xl = draw(st.integers(2, 9)), draw(st.integers(2, 9))
     ns = draw(st.one_of(st.integers(2, 12), st.integers(2, 1500)))
     if ns > 100:
@@ -59,6 +67,12 @@ def cases(draw):
          "then": draw(st.sampled_from([None, None, "crop", "reblock", "export"]))}
     if route == "numpy":
         c["axis_type"] = draw(st.sampled_from(["int64", "int32", "float64", "list"]))
+    if route == "zgy":
+        # ZGY keeps annotation and the sample axis as float32: line numbers stay exactly representable
+        c["il"], c["xl"] = draw(small_axis(n_il)), draw(small_axis(n_xl))
+        c["delay"] = draw(st.one_of(st.sampled_from([0, 0, 100, -8]), st.integers(-4000, 4000)))
+        # openzgy's writer builds a 256-bin histogram of the samples and fails on degenerate value ranges
+        c["values"] = {"kind": draw(st.sampled_from(["smooth", "gauss", "steps"])), "vseed": c["values"]["vseed"]}
     if c["then"] == "reblock":
         c["setting"] = [2, [4, 4, 1024]]
     else:
@@ -109,6 +123,13 @@ def run_case(case, ctx):
               "float64": lambda v: np.array(v, dtype=np.float64), "list": list}[case["axis_type"]]
         conv.numpy_convert(data, out, rate, bs, ilines=mk(il), xlines=mk(xl), samples=samples)
         src_il, src_xl, src_s = il, xl, samples
+    elif case["route"] == "zgy":
+        path = os.path.join(d, "in.zgy")
+        z = sources.write_zgy(path, data, case["il"], case["xl"], case["delay"], case["dt_us"] / 1000.0)
+        src_il, src_xl, src_s = list(z["ilines"]), list(z["xlines"]), z["samples"]
+        if [int(v) for v in src_il] != il or [int(v) for v in src_xl] != xl:
+            raise RuntimeError(f"harness: pyzgy reads other line numbers than written: {src_il} {il}")
+        conv.segy_convert(path, out, rate, bs, cls="ZgyConverter")
     else:
         path = os.path.join(d, "in.sgy")
         cols = sgy.base_cols(n_il * n_xl, ns, case["dt_us"], case["delay"])
@@ -141,7 +162,7 @@ def run_case(case, ctx):
         finally:
             c.close()
         check_axes(o2, src_il, src_xl, src_s, n_il * n_xl, "reblocked")
-    elif then == "export" and case["route"] != "numpy":
+    elif then == "export" and case["route"] in ("segy", "segy-reduced"):
         from seismic_zfp.conversion import SgzConverter
         o2 = os.path.join(d, "e.sgy")
         c = SgzConverter(out)
